@@ -18,6 +18,9 @@ pub enum Sh {
     Sign3,         // -1, 0, 1
     Zero,          // literal U(0)
     Steps,         // C04 history: list of (op, operand, derivation mode, small)
+    ISteps,        // C09 iterator history: list of step codes
+    Small(u32),    // small unsigned value below the bound
+    BitSize,       // C18 bit size
 }
 
 pub struct OpSpec {
@@ -55,6 +58,9 @@ pub const OPS: &[OpSpec] = &[
     OpSpec { op: "bigbig", owner: "C10", shape: &[Sh::Z(6), Sh::Z(6)] },
     OpSpec { op: "gcd.i", owner: "C13", shape: &[Sh::Z(8), Sh::Z(8)] },
     OpSpec { op: "hist", owner: "C04", shape: &[Sh::Z(6), Sh::Steps] },
+    OpSpec { op: "iter", owner: "C09", shape: &[Sh::Z(5), Sh::ISteps, Sh::Small(4), Sh::Small(4)] },
+    OpSpec { op: "bits", owner: "C18", shape: &[Sh::B(96), Sh::U, Sh::BitSize] },
+    OpSpec { op: "range", owner: "C18", shape: &[Sh::B(96), Sh::U, Sh::Z(3), Sh::Z(3)] },
 ];
 
 const I_TABLE: [i128; 24] = [
@@ -153,6 +159,31 @@ pub fn decode(data: &[u8], allowed: &[usize]) -> Option<Case> {
             }
             Sh::Sign3 => Arg::I((c.byte() % 3) as i128 - 1),
             Sh::Zero => Arg::U(0),
+            Sh::ISteps => {
+                let n = (c.byte() as usize) % 16;
+                let mut steps = vec![];
+                for _ in 0..n {
+                    let b = c.byte();
+                    let code: i128 = match b % 16 {
+                        0..=4 => 0,
+                        5..=9 => 1,
+                        10 => 2,
+                        11 => 3,
+                        12 => 4 + (c.byte() % 8) as i128,
+                        13 => 4 + usize::MAX as i128,
+                        14 => 4 + (usize::MAX / 2) as i128 + (c.byte() % 2) as i128,
+                        _ => 4 + usize::MAX as i128 - 1,
+                    };
+                    steps.push(Arg::I(code));
+                }
+                Arg::L(steps)
+            }
+            Sh::Small(m) => Arg::I((c.byte() as u32 % m) as i128),
+            Sh::BitSize => {
+                let b = c.byte();
+                let v = c.byte() as u128;
+                Arg::U(match b % 4 { 0 => v % 131, 1 => (v % 65) * 32 + (b as u128 / 4) % 3, 2 => (v % 33) * 64 + (b as u128 / 4) % 3, _ => v * 8 + (b as u128 / 4) % 8 })
+            }
             Sh::Steps => {
                 let n = (c.byte() as usize) % 25;
                 let mut steps = vec![];
@@ -260,6 +291,7 @@ pub fn encode(case: &Case, allowed: &[usize]) -> Option<Vec<u8>> {
             }
             (Sh::Sign3, Arg::I(v)) => out.push((*v + 1) as u8),
             (Sh::Zero, Arg::U(_)) => {}
+            (Sh::ISteps, _) | (Sh::Small(_), _) | (Sh::BitSize, _) => return None, // fuzz-only shapes: no seed export
             (Sh::Steps, Arg::L(steps)) => {
                 if steps.len() > 24 {
                     return None;
